@@ -27,7 +27,8 @@ number of threads, any sequence of `mremap` outcomes.
 ## 2. `BpArena.Sig` — one thread, its signal mask and its stack of signal-handler frames
 
 `_urcu_bp_read_lock()` → `urcu_bp_register()` (mask, re-check, `_urcu_bp_init`, lock, `add_thread`,
-unlock, restore mask) and the thread-exit path `urcu_bp_unregister()` + `urcu_bp_exit()`, one step
+unlock, restore mask) and the thread-exit path `urcu_bp_unregister()` (mask, lock, `remove_thread`,
+unlock, `urcu_bp_exit()`, restore mask), one step
 per library call that the harness interposes; a `signal` label pushes a handler frame that itself
 executes `urcu_bp_read_lock()` and is enabled exactly when signals are not blocked.
 -/
@@ -203,19 +204,24 @@ inductive Pc
   | xlock       -- mutex_lock(&rcu_registry_lock)
   | xremove     -- remove_thread()
   | xunlock     -- mutex_unlock(&rcu_registry_lock)
-  | xunmask     -- pthread_sigmask(SIG_SETMASK, &oldmask)
   | xinitLock   -- urcu_bp_exit: mutex_lock(&init_lock)
   | xdec        --   --refcount
   | xinitUnlock --   mutex_unlock(&init_lock)
+  | xunmask     -- pthread_sigmask(SIG_SETMASK, &oldmask)  (before urcu_bp_exit() in the unfixed code)
   deriving Repr, DecidableEq
 
 /-- variants of the code: the real one and the mutants the re-check / mask order protect against -/
 structure Cfg where
-  recheck : Bool := true       -- the TLS re-check after blocking signals exists
-  unmaskEarly : Bool := false  -- mutant: mask restored before the registry lock is released
+  recheck : Bool := true        -- the TLS re-check after blocking signals exists
+  unmaskEarly : Bool := false   -- mutant: mask restored before the registry lock is released
+  exitRefMasked : Bool := true  -- urcu_bp_unregister calls urcu_bp_exit() BEFORE restoring the mask
+                                -- (the code since commit 760a93b); false = the order before that repair
   deriving Repr, DecidableEq
 
+/-- the code as it is -/
 def real : Cfg := {}
+/-- the code before 760a93b: mask restored, then `urcu_bp_exit()` takes `init_lock` with signals open -/
+def unfixed : Cfg := { exitRefMasked := false }
 
 structure State where
   top      : Pc               -- running frame
@@ -271,12 +277,17 @@ def step (c : Cfg) (s : State) : Lbl → Option State
     | .xlock => if s.regHeld then none else some { s with regHeld := true, top := .xremove }
     | .xremove => some { s with tls := false, regs := s.regs - 1,
                                 top := if c.unmaskEarly then .xunmask else .xunlock }
-    | .xunlock => some { s with regHeld := false, top := if c.unmaskEarly then .xinitLock else .xunmask }
-    | .xunmask =>
-      some { s with blocked := false, top := if c.unmaskEarly ∧ s.regHeld then .xunlock else .xinitLock }
+    | .xunlock =>
+      some { s with regHeld := false,
+                    top := if c.unmaskEarly ∨ c.exitRefMasked then .xinitLock else .xunmask }
     | .xinitLock => if s.initHeld then none else some { s with initHeld := true, top := .xdec }
     | .xdec => some { s with refs := s.refs - 1, top := .xinitUnlock }
-    | .xinitUnlock => some { s with initHeld := false, top := .idle }
+    | .xinitUnlock =>
+      some { s with initHeld := false, top := if c.exitRefMasked ∧ ¬ c.unmaskEarly then .xunmask else .idle }
+    | .xunmask =>
+      some { s with blocked := false,
+                    top := if c.unmaskEarly ∧ s.regHeld then .xunlock
+                           else if c.exitRefMasked then .idle else .xinitLock }
 
 def runLbls (c : Cfg) : State → List Lbl → Option State
   | s, [] => some s
@@ -284,8 +295,14 @@ def runLbls (c : Cfg) : State → List Lbl → Option State
     | none => none
     | some s' => runLbls c s' ls
 
-/-- pcs strictly between `pthread_sigmask(SIG_BLOCK)` and the matching `SIG_SETMASK` -/
+/-- pcs strictly between `pthread_sigmask(SIG_BLOCK)` and the matching `SIG_SETMASK` (code as it is) -/
 def Pc.inWindow : Pc → Bool
+  | .recheck | .initLock | .initInc | .initUnlock | .lock | .add | .unlock | .unmask
+  | .xlock | .xremove | .xunlock | .xinitLock | .xdec | .xinitUnlock | .xunmask => true
+  | _ => false
+
+/-- the same window in the code before 760a93b: `urcu_bp_exit()` ran outside it -/
+def Pc.inWindowUnfixed : Pc → Bool
   | .recheck | .initLock | .initInc | .initUnlock | .lock | .add | .unlock | .unmask
   | .xlock | .xremove | .xunlock | .xunmask => true
   | _ => false
